@@ -210,6 +210,15 @@ def _estimate(op, model, df, sn, names, world, shared=None):
         fkw = dict(kw)
         if sn is not None:
             fkw["state_names"] = sn
+        if op["jobseed"] % 3 == 0:
+            # the same call on a plain DAG (structure only, e.g. what a structure search returns): it hands back a fitted network
+            from pgmpy.base import DAG
+
+            dag = DAG()
+            dag.add_nodes_from(list(model.nodes()))
+            dag.add_edges_from(list(model.edges()))
+            fitted = dag.fit(df, estimator=Est, n_jobs=op["n_jobs"], **fkw)
+            return list(fitted.get_cpds()), fitted
         model.fit(df, estimator=Est, n_jobs=op["n_jobs"], **fkw)
         return list(model.get_cpds()), model
     est = Est(model, df, state_names=sn) if sn is not None else Est(model, df)
